@@ -6,8 +6,8 @@
 //@ rewrite SV "(self.nsamples() as f32 * ratio).ceil() as usize" => "ceil_product_abs(self.nsamples(), ratio)   /* (self.nsamples() as f32 * ratio).ceil() as usize */"
 //@ rewrite SV "Axis(0)" => "Axis0"
 //@ rewrite SV "T::new_targets_view(" => "new_targets_view("
-//@ rewrite SV "self.weights.slice(s![..n]).to_vec()" => "self.weights.head_abs(n)   /* self.weights.slice(s![..n]).to_vec() */"
-//@ rewrite SV "self.weights.slice(s![n..]).to_vec()" => "self.weights.tail_abs(n)   /* self.weights.slice(s![n..]).to_vec() */"
+//@ rewrite? SV "self.weights.slice(s![..n]).to_vec()" => "self.weights.head_abs(n)   /* self.weights.slice(s![..n]).to_vec() */"
+//@ rewrite? SV "self.weights.slice(s![n..]).to_vec()" => "self.weights.tail_abs(n)   /* self.weights.slice(s![n..]).to_vec() */"
 //@ rewrite SV "Array1::from(a), Array1::from(b)" => "a, b   /* Array1::from(a), Array1::from(b) */"
 //@ rewrite SV "Array1::zeros(0), Array1::zeros(0)" => "WTok::none(), WTok::none()"
 //@ rewrite SV "DatasetBase::new(" => "DatasetV::new("
